@@ -7,7 +7,7 @@ FUNCTIONS = ["Traph.__init__", "FileStorage.check_for_corruption", "FileStorage.
              "LinkStoreHeader.__ensure", "LRUTrieNode.read", "LRUTrieNode.write", "LRUTrie.nodes_iter", "LRUTrie.dfs_iter",
              "LinkStore.add_links", "LinkStore.weighted_link_nodes_iter", "Traph.add_links", "Traph.add_page"]
 REQUIRED = ["torn:refused-or-consistent", "torn:pages-subset", "torn:links-subset", "reach:refused", "reach:opened",
-            "reach:partial-append", "reach:cut-inside-request", "reach:one-store-missing", "reach:long-stem", "reach:op:links", "reach:op:we"]
+            "reach:partial-append", "reach:cut-inside-request", "reach:one-store-missing", "reach:long-stem", "reach:op:links", "reach:op:we", "reach:op:clear"]
 OUTSIDE = ["in-place block rewrites are atomic (as the property states)", "more than 3 write requests", "stems longer than 149 bytes",
            "real OS write ordering (the program-ordered write log of the shim file system is cut; replays rebuild real files from the same log)"]
 
@@ -18,6 +18,7 @@ def levels(tier):
             {"name": "short-n2", "pools": [[[1], [1, 1], [1, 1]]], "n": 2, "alphabet": ["page", "links", "we"], "links_batch": 1, "log_writes": True},
             {"name": "long-n1", "pools": [[[74], [74, 1], [1]], [[1, 148], [1, 100], [2]]], "sparse": True, "n": 1,
              "alphabet": ["page", "links", "we"], "links_batch": 1, "log_writes": True},
+            {"name": "clear-n2", "pools": [[[1], [1, 1], [2]]], "n": 2, "prelude_ops": True, "alphabet": ["links", "clear", "page"], "links_batch": 1, "log_writes": True},
         ]
     return [
         {"name": "short-n2", "pools": [[[1], [1, 1], [1, 1]]], "n": 2, "alphabet": ["page", "links", "we", "batch", "rule"], "links_batch": 2,
@@ -39,9 +40,11 @@ def harness(E):
     ref = Ref()
     h = History(E, t, ref, pool, P["alphabet"], P)
     marks = []
+    snaps = []       # model state at the completion of each request
     for i in range(P["n"]):
         h.step(i)
         marks.append(len(E.write_log()))
+        snaps.append((ref.pages.copy(), [list(e) for e in ref.links]))
     t.close()
     log = E.write_log()
     # the cut: `w` events are complete; optionally a part of event w (an append) persisted too
@@ -55,6 +58,19 @@ def harness(E):
             n = len(log[w][2])
             r = E.int("r", 1, n - 1)
             torn = (log[w], r)
+    # "the completed history": the requests up to and including the one the cut falls in
+    done = len(marks) - 1
+    for i, m in enumerate(marks):
+        if w <= m:
+            done = i
+            break
+    fin_pages, fin_links = snaps[done]
+
+    def fin_weight(s_lru, t_lru):
+        for e in fin_links:
+            if same(e[0].lru, s_lru) and same(e[1].lru, t_lru):
+                return e[2]
+        return 0
     cutdir = E.fresh_folder("cut")
     E.materialise(cutdir, log[:w], torn)
     created = [ev[0] for ev in log[:w] if ev[1] == "create"]
@@ -81,14 +97,14 @@ def harness(E):
     E.check(True, "torn:refused-or-consistent")
     # ... and report only pages and links that the completed history also reports
     for lru, crawled in pages:
-        E.check(ref.pages.has(lru), "torn:pages-subset", "a page is reported that the completed history does not report")
+        E.check(fin_pages.has(lru), "torn:pages-subset", "a page is reported that the completed history does not report")
         links = q("get_page_links", t2.get_page_links, lru)
         for s, d, wgt in links:
-            E.check(wgt <= ref.weight(E.wrap(s), E.wrap(d)), "torn:links-subset",
-                    "link weight %r exceeds the %d submissions of the completed history" % (wgt, ref.weight(E.wrap(s), E.wrap(d))))
+            E.check(wgt <= fin_weight(E.wrap(s), E.wrap(d)), "torn:links-subset",
+                    "link weight %r exceeds the %d submissions of the completed history" % (wgt, fin_weight(E.wrap(s), E.wrap(d))))
     for a, b in outl:
-        E.check(ref.weight(E.wrap(a), E.wrap(b)) > 0, "torn:links-subset", "outbound enumeration reports a link never submitted")
+        E.check(fin_weight(E.wrap(a), E.wrap(b)) > 0, "torn:links-subset", "outbound enumeration reports a link never submitted")
     for a, b in inl:
-        E.check(ref.weight(E.wrap(b), E.wrap(a)) > 0, "torn:links-subset", "inbound enumeration reports a link never submitted")
+        E.check(fin_weight(E.wrap(b), E.wrap(a)) > 0, "torn:links-subset", "inbound enumeration reports a link never submitted")
     E.observe("pages", [[l, c] for l, c in pages])
     t2.close()
